@@ -46,11 +46,13 @@ D_CRASH_BEFORE = 10
 D_CRASH_AFTER = 11
 D_EIO, D_ENOSPC, D_EACCES, D_EMFILE, D_ENOENT = 12, 13, 14, 15, 16
 D_TORN = 17                          # write only; next tape entry = fraction/256
+D_MEMERR, D_INTR = 18, 19            # MemoryError / KeyboardInterrupt raised out of a cache file operation
+ASYNC = {D_MEMERR: MemoryError, D_INTR: KeyboardInterrupt}
 ONEOFF = {D_EIO: errno.EIO, D_ENOSPC: errno.ENOSPC, D_EACCES: errno.EACCES,
           D_EMFILE: errno.EMFILE, D_ENOENT: errno.ENOENT}
 FAULT_NAMES = {D_CRASH_BEFORE: 'crash_before', D_CRASH_AFTER: 'crash_after', D_EIO: 'EIO',
                D_ENOSPC: 'ENOSPC', D_EACCES: 'EACCES', D_EMFILE: 'EMFILE', D_ENOENT: 'ENOENT',
-               D_TORN: 'torn_write'}
+               D_TORN: 'torn_write', D_MEMERR: 'MemoryError', D_INTR: 'KeyboardInterrupt'}
 
 
 class SimCrash(BaseException):
@@ -231,6 +233,7 @@ class OpCtx:
         self.cache_writes = []
         self.cap_factor = max(1, op.get('n', 1)) if op.get('k') == 'bulk' else 1
         self.injected = []            # exception instances injected into this op
+        self.async_injected = False   # ... among them a MemoryError / KeyboardInterrupt
         self.inflight = []            # [(content, mtime)] versions the file took while in flight
         self.start = None             # (content, mtime) at op start
         self.src_raws = []            # SimRaw objects this op opened on its source file
@@ -613,6 +616,16 @@ class World:
             proc.dead = True
             self.count('fault.torn_write')
             return Directive(limit=(size * frac) // 256, then=SimCrash())
+        if d in ASYNC:
+            # a failing allocation / the user's Ctrl-C while the cache file is read or written: the call may
+            # end with that exception; what it leaves behind (memory and disk) must be consistent
+            if pclass in ('src', 'other'):
+                return None
+            e = ASYNC[d]('simulated')
+            ctx.injected.append(e)
+            ctx.async_injected = True
+            self.count('fault.async.' + FAULT_NAMES[d] + '.' + kind.split(':')[0])
+            raise e
         if d in ONEOFF:
             if pclass in ('src', 'other'):
                 return None
@@ -858,6 +871,8 @@ class World:
                 raise
             except OSError:
                 pass                                  # raced with a writer: `rm` gives up, too
+            except BaseException as e:                # an injected MemoryError / KeyboardInterrupt
+                return ('exc', e)
             if op.get('mem', True):
                 pc.parser_cache.clear()
             return ('noop',)
@@ -1014,6 +1029,10 @@ class World:
             if self.cfg.get('warn_error') and isinstance(e, Warning):
                 self.count('probe.warning_raised_as_error')
                 return                       # the caller asked for warnings to be errors (-W error)
+            if ctx.async_injected and any(y is x for y in chain for x in ctx.injected
+                                          if isinstance(x, (MemoryError, KeyboardInterrupt))):
+                self.count('probe.op_ended_by_async_exception')
+                return                       # Ctrl-C / out of memory may end the call
             if any(y is x for y in chain for x in ctx.injected):
                 # Errors are injected into cache-directory operations only (never into the source file):
                 # "every point of failure injected into the save/load/clean-up file operations" must leave
